@@ -155,7 +155,7 @@ struct Compiled {
     std::string opf_err;
 };
 typedef std::map<std::pair<int, std::string>, Compiled> PcapCache;
-PcapCache& pcap_cache() { static PcapCache c; return c; }
+PcapCache& pcap_cache() { static PcapCache* c = new PcapCache; return *c; }  // never destroyed: stays reachable for LeakSanitizer
 
 void pcap_cache_clear() {
     PcapCache& c = pcap_cache();
@@ -198,6 +198,7 @@ OfflinePacketFilter* opf_get(Compiled& e, int dlt, const std::string& expr) {
             case DLT_EN10MB: e.opf = new OfflinePacketFilter(expr, DataLinkType<EthernetII>()); break;
             case DLT_LINUX_SLL: e.opf = new OfflinePacketFilter(expr, DataLinkType<SLL>()); break;
             case DLT_RAW: e.opf = new OfflinePacketFilter(expr, DataLinkType<IP>()); break;
+            case DLT_NULL: e.opf = new OfflinePacketFilter(expr, DataLinkType<Loopback>()); break;
             default: break;
         }
     } catch (const std::exception& ex) {
@@ -350,6 +351,7 @@ struct Lay {
     size_t opt_bytes = 0;       // IPv4/TCP: option bytes before padding
     bool spoofed_option = false;
     std::vector<uint8_t> ext_types;  // IPv6: extension header types in order (snapshot)
+    bool chain_generic = true;       // IPv6: every header in the chain has the generic extension header format
 };
 
 Proto proto_of(const PDU& p) {
@@ -450,7 +452,7 @@ void model_layer(Lay& a) {
             break;
         }
         case dis::P_ICMP6: a.hdr = p.header_size(); a.indep_hdr = false; a.user_len = static_cast<ICMPv6&>(p).length(); break;
-        case dis::P_RADIOTAP: a.hdr = 8 + static_cast<RadioTap&>(p).options_payload().size(); break;
+        case dis::P_RADIOTAP: a.hdr = 4 + static_cast<RadioTap&>(p).options_payload().size(); break;  // version, pad, it_len + present words and fields
         case dis::P_PAYLOAD: a.hdr = static_cast<RawPDU&>(p).payload().size(); break;
         default: a.hdr = p.header_size(); a.indep_hdr = false; break;  // ARP, EAPOL, opaque classes
     }
@@ -482,6 +484,13 @@ void build_model(PDU& root, std::vector<Lay>& m) {
                     a.trl = ext_structure_size(e);
                     // RFC 4884 section 4: the original datagram is zero padded to a 32-bit (ICMPv6: 64-bit) boundary and to at least 128 octets
                     if (has_inner) { size_t padded = pad_to(inner, v6 ? 8 : 4); if (padded < 128) padded = 128; a.trl += padded - inner; }
+                } else if (has_inner) {
+                    // no extension structure: when the length attribute is used (on request, or - documented in icmp.h - always for
+                    // an inner packet of more than 128 bytes) RFC 4884 wants the original datagram zero padded to the unit it is counted in
+                    unsigned t = v6 ? (unsigned)static_cast<ICMPv6*>(a.p)->type() : (unsigned)static_cast<ICMP*>(a.p)->type();
+                    bool derives = v6 ? t == 3 : (t == 3 || t == 11 || t == 12);
+                    size_t padded = pad_to(inner, v6 ? 8 : 4);
+                    if (derives && (a.user_len != 0 || padded > 128)) a.trl = padded - inner;
                 }
                 break;
             }
@@ -617,10 +626,10 @@ struct Checker {
         size_t body = a.off + a.hdr;
         size_t orig_end = a.end - a.trl;            // where the inner packet ends
         size_t field_end = has_ext ? a.end - ext_structure_size(es) : a.end;  // where the (padded) original datagram field ends
+        CK(all_zero(b, orig_end, field_end), a.cls + ":original-datagram-padding-nonzero", "padding after the inner packet (up to the extension structure / end of the original datagram field) is not zero");
+        if (field_end > orig_end) facts.padding = true;
         if (has_ext) {
             facts.icmp_ext = true;
-            CK(all_zero(b, orig_end, field_end), a.cls + ":original-datagram-padding-nonzero", "padding between the inner packet and the extension structure is not zero");
-            if (field_end > orig_end) facts.padding = true;
             Layer E;
             E.off = a.off;
             dis::dissect_icmp_ext(E, b, field_end, a.end);
@@ -646,7 +655,8 @@ struct Checker {
         unsigned attr = b[a.off + (v6 ? 4 : 5)] * unit;
         if (attr != 0)
             CK(attr == present, a.cls + ":rfc4884-length", "length attribute says " << attr << " bytes of original datagram, " << present << " bytes are there (inner packet " << inner << " bytes, extensions " << (has_ext ? "yes" : "no") << ")");
-        if (has_ext && present != 128)
+        if (has_ext && !has_inner) ctx.excluded("rfc4884-extension-structure-without-original-datagram");
+        else if (has_ext && present != 128)
             CK(attr != 0, a.cls + ":rfc4884-length-missing", "extension structure follows an original datagram field of " << present << " bytes but the length attribute is 0 (decoders then look at offset 128)");
         (void)L;
     }
@@ -676,7 +686,20 @@ struct Checker {
             tagpos = p;
             p += tot;
         }
-        if (!all_generic || a.spoofed_option) {
+        uint8_t fin = b[tagpos];
+        bool fin_is_ext = fin == 0 || fin == 43 || fin == 44 || fin == 60 || fin == 135 || fin == 139 || fin == 140;
+        bool child_known = i + 1 < m.size() && expected_ipproto(m[i + 1]).known;
+        a.chain_generic = all_generic && !a.spoofed_option && !(fin_is_ext && !child_known);
+        if (all_generic && !a.spoofed_option && fin_is_ext && !child_known) {
+            // no tag exists for what follows (or nothing follows) and the value left in the last next-header field happens to be an
+            // extension header type: a decoder walks on into the payload. Specified behaviour (the user's tag stays): follow the built chain
+            ctx.excluded("ipv6-final-next-header-left-by-user-is-an-extension-header-type");
+            L.err.clear();
+            L.hlen = a.hdr; L.pay_off = a.off + a.hdr; L.tag = fin; L.later_fragment = false;
+            unsigned plen = dis::be16(b + a.off + 4);
+            L.pay_end = a.off + 40 + plen <= a.end ? a.off + 40 + plen : a.end;
+            L.items.resize(hs.size());
+        } else if (!all_generic || a.spoofed_option) {
             // the user put a header type into the chain that the generic format cannot carry: follow the built chain instead
             ctx.excluded("ipv6-chain-with-non-extension-header-types");
             L.err.clear();
@@ -714,6 +737,7 @@ struct Checker {
         for (size_t i = 0; i < m.size(); ++i) {
             Lay& a = m[i];
             if (a.proto == P_OPAQUE) { D[i].proto = dis::P_PAYLOAD; continue; }
+            if (a.proto == dis::P_ARP) { D[i].proto = dis::P_ARP; D[i].off = a.off; D[i].hlen = a.hdr; continue; }  // body not modelled (fixed 28 bytes in libtins whatever hlen/plen say)
             if (a.proto == dis::P_PAYLOAD) {
                 const RawPDU::payload_type& pl = static_cast<RawPDU*>(a.p)->payload();
                 CK(a.end - a.off == pl.size() && (pl.empty() || memcmp(b + a.off, pl.data(), pl.size()) == 0), "RawPDU:payload-bytes-differ", "payload of " << pl.size() << " bytes is not at [" << a.off << "," << a.end << ")");
@@ -730,6 +754,8 @@ struct Checker {
             bool rfc4884_err = L.err.compare(0, 7, "rfc4884") == 0;
             bool option_err = L.err.compare(0, 6, "option") == 0 || L.err.compare(0, 3, "tag") == 0;
             if (option_err && a.spoofed_option) { ctx.excluded("option-with-spoofed-length-field"); L.err.clear(); }
+            if (a.proto == dis::P_PPPOE && static_cast<PPPoE*>(a.p)->code() != 0 && i + 1 < m.size()) { ctx.excluded("pppoe-discovery-packet-with-a-payload-layer"); L.err.clear(); L.hlen = a.hdr; L.pay_off = a.off + a.hdr; L.items.resize(static_cast<PPPoE*>(a.p)->tags().size());
+                unsigned pl = dis::be16(b + a.off + 4); L.pay_end = a.off + 6 + pl <= a.end ? a.off + 6 + pl : a.end; }
             if (a.proto == dis::P_PPPOE && static_cast<PPPoE*>(a.p)->code() == 0 && a.hdr > 6) { ctx.excluded("pppoe-session-packet-with-tags"); D[i] = L; continue; }
             if (a.proto == dis::P_AH && (a.hdr % 4) != 0) { ctx.excluded("ah-icv-not-a-multiple-of-4-bytes"); L.err.clear(); L.hlen = a.hdr; L.pay_off = a.off + a.hdr; L.pay_end = a.end; D[i] = L; check_tag(i, L); continue; }
             if (a.proto == dis::P_DOT3 && a.size - 14 > 1500) { ctx.excluded("802.3-frame-over-1500-bytes"); L.err.clear(); L.pay_off = a.off + 14; L.pay_end = a.end; D[i] = L; continue; }
@@ -804,15 +830,21 @@ struct Checker {
                     if (L.csum == dis::CS_OK) note_sum(L, L.csum_folds, L.csum_len);
                     check_icmp(i, L, false);
                     break;
-                case dis::P_RADIOTAP:
-                    CK(L.fcs_present == (a.trl == 4), "RadioTap:fcs-presence", "FLAGS field on the wire " << (L.fcs_present ? "announces" : "does not announce") << " an FCS, the packet was laid out with a " << a.trl << " byte trailer");
-                    if (L.fcs_present && i + 1 < m.size()) {
+                case dis::P_RADIOTAP: {
+                    // chained present words: whether later words restart the field numbering is the RadioTap parser's business (C11);
+                    // the FCS is then located from the layout the packet was built with
+                    bool chained = (L.get("present", 0) & 0x80000000u) != 0;
+                    if (chained) ctx.excluded("radiotap-chained-present-words (FLAGS lookup not cross-checked)");
+                    else CK(L.fcs_present == (a.trl == 4), "RadioTap:fcs-presence", "FLAGS field on the wire " << (L.fcs_present ? "announces" : "does not announce") << " an FCS, the packet was laid out with a " << a.trl << " byte trailer");
+                    if (a.trl == 4 && i + 1 < m.size() && a.end - a.off >= a.hdr + 4) {
                         ++facts.checksum_layers;
                         facts.fcs = true;
-                        CK(L.fcs_field == L.fcs_calc, "RadioTap:fcs", "FCS on the wire 0x" << std::hex << L.fcs_field << ", CRC-32 of the 802.11 frame is 0x" << L.fcs_calc << std::dec);
-                        if (L.fcs_field == L.fcs_calc) ++facts.verified;
+                        uint32_t field = dis::le32(b + a.end - 4), calc = dis::crc32_ieee(b + a.off + a.hdr, a.end - 4 - (a.off + a.hdr));
+                        CK(field == calc, "RadioTap:fcs", "FCS on the wire 0x" << std::hex << field << ", CRC-32 of the 802.11 frame is 0x" << calc << std::dec);
+                        if (field == calc) ++facts.verified;
                     }
                     break;
+                }
                 default: break;
             }
         }
@@ -839,7 +871,7 @@ struct Checker {
             switch ((int)a.proto) {
                 case dis::P_ETH2: case dis::P_DOT1Q: case dis::P_SNAP: case dis::P_SLL: known = expected_ethertype(a, c, g).known; break;
                 case dis::P_IP4: known = expected_ipproto(c).known && !D[i].later_fragment; break;
-                case dis::P_IP6: known = expected_ipproto(c).known && !D[i].later_fragment && !a.spoofed_option; for (uint8_t t : a.ext_types) if (!(t == 0 || t == 43 || t == 60 || t == 135 || t == 139 || t == 140 || t == 44)) known = false; if (pure[i].hlen != a.hdr) known = false; break;
+                case dis::P_IP6: known = expected_ipproto(c).known && !D[i].later_fragment && !pure[i].later_fragment && a.chain_generic && pure[i].hlen == a.hdr; break;
                 case dis::P_AH: known = expected_ipproto(c).known && a.hdr % 4 == 0; break;
                 case dis::P_NULL: known = c.proto == dis::P_IP4 || c.proto == dis::P_IP6; break;
                 case dis::P_DOT3: known = c.proto == dis::P_LLC && a.size - 14 <= 1500 && !(b[a.off + 14] == 0xaa && b[a.off + 15] == 0xaa && b[a.off + 16] == 3); break;
@@ -1011,8 +1043,7 @@ void check_pcap(Ctx& ctx, Src& s, Checker& ck, PDU& pdu) {
             VCHECK(ctx, got == expect, "C05:pcap:" + p.kind + (expect ? ":value-set-does-not-match" : ":other-value-matches"),
                    "pcap_offline_filter " << (got ? "matches" : "does not match") << tail);
             ck.facts.pcap = true;
-            if (dlt == DLT_NULL) { ctx.excluded("OfflinePacketFilter-on-Loopback (DataLinkType<Loopback> is DLT_LOOP, C17's finding)"); continue; }
-            OfflinePacketFilter* f = opf_get(c, dlt, expr);
+                        OfflinePacketFilter* f = opf_get(c, dlt, expr);
             VCHECK(ctx, f != nullptr, "C05:OfflinePacketFilter:rejects-valid-filter", "constructor threw: " << c.opf_err << tail);
             if (!f) continue;
             bool got2 = f->matches_filter(b, (uint32_t)n);
@@ -1111,7 +1142,7 @@ void shape_payload(PDU& root, Src& s, Ctx& ctx, std::vector<std::string>& prog, 
 // (UDP must then transmit 0xffff), or the accumulator needs a second end-around carry - for a big-endian accumulator over
 // pseudo-header + segment, or for a little-endian (host order on x86) accumulator over the segment alone.
 void solve_sums(PDU& root, Src& s, Ctx& ctx, std::vector<std::string>& prog) {
-    unsigned mode = (unsigned)s.weighted({5, 3, 2, 2, 2});
+    unsigned mode = (unsigned)s.weighted({4, 5, 2, 2, 2});
     if (mode == 0) return;
     unsigned sub = (unsigned)s.range(0, 2);
     std::vector<Lay> m;
@@ -1130,12 +1161,21 @@ void solve_sums(PDU& root, Src& s, Ctx& ctx, std::vector<std::string>& prog) {
         mode = 1 + sub;
     } else {
         for (size_t i = 0; i < m.size(); ++i) if (m[i].proto == dis::P_TCP || m[i].proto == dis::P_UDP || m[i].proto == dis::P_ICMP || m[i].proto == dis::P_ICMP6) t_idx = (int)i;
-        if (t_idx < 0 || m.back().proto != dis::P_PAYLOAD || (int)m.size() - 1 <= t_idx) return;
-        raw_idx = (int)m.size() - 1;
+        if (t_idx < 0) return;
         from = m[t_idx].off; to = m[t_idx].end;
         field_off = from + (m[t_idx].proto == dis::P_TCP ? 16 : m[t_idx].proto == dis::P_UDP ? 6 : 2);
-        word_off = m[raw_idx].off + ((m[raw_idx].off - from) & 1);
-        if (word_off + 2 > m[raw_idx].end) return;
+        bool port_word = false;
+        if (m.back().proto == dis::P_PAYLOAD && (int)m.size() - 1 > t_idx) {
+            raw_idx = (int)m.size() - 1;
+            word_off = m[raw_idx].off + ((m[raw_idx].off - from) & 1);
+            if (word_off + 2 > m[raw_idx].end) raw_idx = -1;
+        }
+        if (raw_idx < 0) {   // no payload bytes to solve for: the source port is a free aligned word too
+            if (m[t_idx].proto != dis::P_TCP && m[t_idx].proto != dis::P_UDP) return;
+            port_word = true;
+            word_off = from;
+        }
+        (void)port_word;
         if (m[t_idx].proto != dis::P_ICMP) {
             if (t_idx == 0) return;
             const Lay& ipl = m[t_idx - 1];
@@ -1172,6 +1212,10 @@ void solve_sums(PDU& root, Src& s, Ctx& ctx, std::vector<std::string>& prog) {
     if (ip_idx >= 0) {
         static_cast<IP*>(m[ip_idx].p)->id((uint16_t)((b0 << 8) | b1));
         prog.push_back("IP::id(" + std::to_string((b0 << 8) | b1) + ") [solved, mode " + std::to_string(mode) + "]");
+    } else if (raw_idx < 0) {
+        uint16_t port = (uint16_t)((b0 << 8) | b1);
+        if (m[t_idx].proto == dis::P_TCP) static_cast<TCP*>(m[t_idx].p)->sport(port); else static_cast<UDP*>(m[t_idx].p)->sport(port);
+        prog.push_back(m[t_idx].cls + "::sport(" + std::to_string(port) + ") [solved, mode " + std::to_string(mode) + "]");
     } else {
         RawPDU* raw = static_cast<RawPDU*>(m[raw_idx].p);
         size_t k = word_off - m[raw_idx].off;
